@@ -243,9 +243,10 @@ func (e *env) apply(b bug.Interface, c Call, unix int64) error {
 	case "labelf":
 		_, err = bug.ForceChangeLabels(b, a, unix, labels(c.Add), labels(c.Rem), nil)
 	case "label":
+		before := len(b.Operations())
 		_, _, err = bug.ChangeLabels(b, a, unix, labels(c.Add), labels(c.Rem), nil)
-		if err != nil && strings.Contains(err.Error(), "no label added or removed") {
-			err = nil
+		if err != nil && len(b.Operations()) == before {
+			err = nil // refused without appending anything (nothing to change): whether that was right is decided by the compiled state
 		}
 	case "meta":
 		_, err = bug.SetMetadata(b, a, unix, target(s, c.T), map[string]string{c.Key: fmt.Sprintf("v%d", i)})
@@ -279,8 +280,9 @@ func (e *env) applyCache(b *cache.BugCache, c Call, unix int64) error {
 	case "labelf":
 		_, err = b.ForceChangeLabelsRaw(a, unix, labels(c.Add), labels(c.Rem), nil)
 	case "label":
+		before := len(b.Snapshot().Operations)
 		_, _, err = b.ChangeLabelsRaw(a, unix, labels(c.Add), labels(c.Rem), nil)
-		if err != nil && strings.Contains(err.Error(), "no label added or removed") {
+		if err != nil && len(b.Snapshot().Operations) == before {
 			err = nil
 		}
 	case "meta":
@@ -356,8 +358,9 @@ func (w *worker) run(v Vec, withCache bool) string {
 			return "cache: NewRaw failed: " + err.Error()
 		}
 		for k, c := range v.Calls[1:] {
+			nbefore := len(cb.Snapshot().Operations)
 			if err := w.ce.applyCache(cb, c, unix+int64(k)+1); err != nil {
-				if c.K == "edit" && strings.Contains(err.Error(), "comment not found") {
+				if c.K == "edit" && len(cb.Snapshot().Operations) == nbefore {
 					return "" // the cache API refuses edits whose target is not a comment: nothing is appended, nothing to compare
 				}
 				return fmt.Sprintf("cache: call %d (%s) failed: %v", k+2, c.K, err)
